@@ -173,9 +173,13 @@ func (r *checkRun) prepare() error {
 			continue
 		}
 		p := filepath.Join(repoRoot, rw.File)
-		b, err := os.ReadFile(p)
-		if err != nil {
-			return err
+		b, chained := r.overlay[p] // several rewrites of one file apply in order
+		if !chained {
+			var err error
+			b, err = os.ReadFile(p)
+			if err != nil {
+				return err
+			}
 		}
 		if n := bytes.Count(b, []byte(rw.Old)); n != 1 {
 			return fmt.Errorf("rewrite of %s: %q found %d times (want exactly 1); the reduction no longer applies", rw.File, rw.Old, n)
@@ -524,17 +528,24 @@ func (r *checkRun) loadKnown() error {
 }
 
 // matchKnown: a known finding is identified by "<harness>:<label>|<sig>" with
-// spaces in sig written as '_' ; '*' at the end of the key matches any suffix.
+// spaces in sig written as '_' ; '*' at the end of the key matches any suffix,
+// and "*:" instead of the harness name matches any harness of the property
+// (for a call site that several harnesses reach).
 func (r *checkRun) matchKnown(v *interp.Violation) *knownFinding {
-	key := v.Harness + ":" + v.Label + "|" + strings.ReplaceAll(v.Sig, " ", "_")
+	rest := v.Label + "|" + strings.ReplaceAll(v.Sig, " ", "_")
+	key := v.Harness + ":" + rest
 	for _, k := range r.known {
 		if k.property != r.prop.ID {
 			continue
 		}
-		if k.key == key {
+		want, have := k.key, key
+		if strings.HasPrefix(want, "*:") {
+			want, have = strings.TrimPrefix(want, "*:"), rest
+		}
+		if want == have {
 			return k
 		}
-		if strings.HasSuffix(k.key, "*") && strings.HasPrefix(key, strings.TrimSuffix(k.key, "*")) {
+		if strings.HasSuffix(want, "*") && strings.HasPrefix(have, strings.TrimSuffix(want, "*")) {
 			return k
 		}
 	}
